@@ -6,5 +6,6 @@ CONSTANTS
   OrderedMerge = FALSE
   ReadsLeak = FALSE
   OrderedScan = TRUE
+  Aliases = FALSE
 INVARIANT Functional
 CHECK_DEADLOCK FALSE
